@@ -44,6 +44,7 @@ func init() {
 		{"duration", descriptorpb.FieldDescriptorProto_TYPE_MESSAGE, ".google.protobuf.Duration"},
 		{"fraction", descriptorpb.FieldDescriptorProto_TYPE_MESSAGE, ".tableau.Fraction"},
 		{"comparator", descriptorpb.FieldDescriptorProto_TYPE_MESSAGE, ".tableau.Comparator"},
+		{"enum", descriptorpb.FieldDescriptorProto_TYPE_ENUM, ".verifkinds.Color"},
 	}
 	msg := &descriptorpb.DescriptorProto{Name: proto.String("Kinds")}
 	for i, x := range fs {
@@ -60,6 +61,9 @@ func init() {
 		Name: proto.String("verif_kinds.proto"), Package: proto.String("verifkinds"), Syntax: proto.String("proto3"),
 		Dependency:  []string{"tableau/protobuf/tableau.proto", "google/protobuf/timestamp.proto", "google/protobuf/duration.proto", "tableau/protobuf/wellknown.proto"},
 		MessageType: []*descriptorpb.DescriptorProto{msg},
+		EnumType: []*descriptorpb.EnumDescriptorProto{{Name: proto.String("Color"), Value: []*descriptorpb.EnumValueDescriptorProto{
+			c03EnumValue("COLOR_UNKNOWN", 0, ""), c03EnumValue("COLOR_RED", 1, "Red"), c03EnumValue("COLOR_BLUE", 2, "Blue"),
+			c03EnumValue("COLOR_X", 7, "X"), c03EnumValue("COLOR_NEG", -3, "Neg")}}},
 	}
 	fd, err := protodesc.NewFile(fdp, globalFilesResolver{})
 	if err != nil {
@@ -69,6 +73,16 @@ func init() {
 		kindFields[x.name] = fd.Messages().Get(0).Fields().Get(i)
 	}
 	_ = tableaupb.E_Field
+}
+
+func c03EnumValue(name string, num int32, alias string) *descriptorpb.EnumValueDescriptorProto {
+	v := &descriptorpb.EnumValueDescriptorProto{Name: proto.String(name), Number: proto.Int32(num)}
+	if alias != "" {
+		o := &descriptorpb.EnumValueOptions{}
+		proto.SetExtension(o, tableaupb.E_Evalue, &tableaupb.EnumValueOptions{Name: alias})
+		v.Options = o
+	}
+	return v
 }
 
 // the kinds the Lean model knows, and the Go kinds of the same family
@@ -96,6 +110,8 @@ func implParseScalar(kind, raw string) string {
 		return "absent"
 	}
 	switch fd.Kind() {
+	case protoreflect.EnumKind:
+		return "ok " + strconv.FormatInt(int64(v.Enum()), 10)
 	case protoreflect.BoolKind:
 		if v.Bool() {
 			return "ok 1"
@@ -299,4 +315,30 @@ func init() {
 	})
 	regImpl("c03.frac", func(a []string) string { return implFraction(mustStr(a[0])) })
 	regImpl("c03.cmp", func(a []string) string { return implComparator(mustStr(a[0])) })
+}
+
+// corr.xproto.enum: enum cells (number / name / alias / junk) against Model.EnumLit and Spec.C03Enum
+func init() {
+	table := "0:" + encStr("COLOR_UNKNOWN") + ":" + encStr("") + ";1:" + encStr("COLOR_RED") + ":" + encStr("Red") + ";2:" + encStr("COLOR_BLUE") + ":" + encStr("Blue") +
+		";7:" + encStr("COLOR_X") + ":" + encStr("X") + ";-3:" + encStr("COLOR_NEG") + ":" + encStr("Neg")
+	regStream("corr.xproto.enum", func(r *rand.Rand, n int, emit func(string, ...string)) {
+		fixed := []string{"", " ", "0", "1", "2", "7", "-3", "3", "-1", "8", "Red", "Blue", "X", "Neg", "red", "RED", "COLOR_RED", "COLOR_UNKNOWN", "COLOR_X", "color_red", " Red", "Red ", "Re d",
+			"1.0", "1.9", "2.5", "0.9", "-0.4", "1e0", "7e0", "70e-1", "+1", "+7", "-3.0", "NaN", "Inf", "-Inf", "nan", "inf", "Infinity", "0x1", "0x1p0", "1_0", "4294967297", "2147483648", "-2147483649",
+			"1e400", "Unknown", "COLOR", "x", "X1", "7X", "Red,Blue", "Red|Blue", "１", "红"}
+		count := 0
+		for _, s := range fixed {
+			emit("c03.enum", table, encStr(s))
+			count++
+		}
+		toks := []string{"Red", "Blue", "X", "Neg", "COLOR_", "RED", "0", "1", "2", "7", "-", "+", ".", "e", " ", "_", "a", "N", "n", "I", "f"}
+		for count < n {
+			var sb strings.Builder
+			for k := 1 + r.Intn(3); k > 0; k-- {
+				sb.WriteString(toks[r.Intn(len(toks))])
+			}
+			emit("c03.enum", table, encStr(sb.String()))
+			count++
+		}
+	})
+	regImpl("c03.enum", func(a []string) string { return implParseScalar("enum", mustStr(a[1])) })
 }
